@@ -56,6 +56,7 @@ const (
 	oAssignable = "R1 slice column type assignable to, but not identical with, the parameter type of a combinator's function ('must match' is not defined further). Not applied to Invocation/Apply: 'arguments do not match in type' is read as: the argument's type is the parameter type, or implements it when the parameter is of interface type"
 	oVariadic   = "R2 variadic function (also as the target of Invocation/Apply): constructor docs are silent; excluded when either the literal ([]T last parameter) or a Go-call reading (0..4 variadic arguments) would fit, rejected when no reading fits"
 	oCtxPos     = "R3 context.Context parameter that is not the single leading parameter (doc.go does not fix the position)"
+	oCtxCol     = "R9 single leading context.Context parameter where the function would also fit if that parameter were read as the parameter of a first slice column whose type is (assignable to) context.Context"
 	oNilFunc    = "R4 nil value of a function type that fits the schema (value-level, not a type schema)"
 	oKeyOps     = "R5 key capability not fixed by the docs (Reduce/Reshuffle/Reshard say nothing about key types; 'partitionable' for Fold/Cogroup refers to the non-existent Keyer doc: only 'cannot be hashed' => not partitionable and int/string (Fold) resp. hashable+sortable (Cogroup) => partitionable are taken as decided)"
 	oFoldPrefix = "R6 Fold on a slice with prefix>1 (BUG note: grouping not supported; behaviour undocumented)"
@@ -187,13 +188,30 @@ func combinatorFn(fi *fnInfo, base func(params, results []reflect.Type) verdict)
 			nctx++
 		}
 	}
+	// The optional context argument is "of type context.Context": exactly that
+	// type. A leading parameter of another type that merely implements
+	// context.Context (a named interface embedding it, a struct carrying its
+	// methods) is an ordinary column parameter.
 	switch {
 	case nctx == 0:
+		return plainFn(fi, params, base)
 	case nctx == 1 && params[0] == tCtx:
-		params = params[1:]
+		v := plainFn(fi, params[1:], base)
+		if v.k == vReject {
+			// R9: the same parameter read as the parameter of a first column
+			// whose type is (assignable to) context.Context.
+			if v2 := plainFn(fi, params, base); v2.k != vReject {
+				return excluded(oCtxCol)
+			}
+		}
+		return v
 	default:
 		return excluded(oCtxPos)
 	}
+}
+
+// plainFn: the function rules once the context question is settled.
+func plainFn(fi *fnInfo, params []reflect.Type, base func(params, results []reflect.Type) verdict) verdict {
 	if !fi.variadic {
 		return base(params, fi.out)
 	}
